@@ -497,6 +497,9 @@ impl Session {
         self.mtu = mtu;
         self.window_size = window_size;
         self.handshake_pending = !self.initiator;
+        // A (repeated) handshake always starts from clean windows
+        self.recv_window.reset();
+        self.send_window.reset();
         self.recv_window.level = window_size;
         self.send_window.window_size = window_size;
         self.send_window.level = window_size;
